@@ -1,17 +1,19 @@
 (* C12 - the heartbeat watchdog detects dead peers and spares live ones.
    Theorems only (proofs in AF.Lemmas.TimerL).  They are about the model Fix/Timer.v of
    heartbeat_timer_task / send_test_req / _process_testrequest / _process_heartbeat /
-   _finalize_message / disconnect / the TESTREQUEST gate of send_msg, whose thresholds, sleep
-   period and state numbers are the regenerated AFGen.GenTimer.
+   _check_seqnum_gaps / _finalize_message / disconnect / the TESTREQUEST gate of send_msg, whose thresholds,
+   sleep period and state numbers are the regenerated AFGen.GenTimer.  The model describes the library after the
+   repairs R13a-R13d (TestRequest timeout needs 2 hb s without valid traffic; probing also while a resend is awaited;
+   send_msg lets only the pending TestReqID through; the constructor refuses heartbeat_period < 1).
 
-   Time is integer milliseconds, hb the heartbeat interval in seconds (any integer >= 1 unless
-   stated).  `ticks p k` are k watchdog iterations one sleep period (1000 ms) apart starting at
-   p: the phase p is arbitrary.  `trace s evs` is the run of a time-ordered scenario
-   (Tick | Recv t d m: valid message numbered next_num_in + d, d = 0 in sequence, d > 0 behind a gap |
-   application send_test_req() | application send_msg(TestRequest));
-   `outs` its per-event outputs, `final` its last state.
-   `idle_at s hb t0`: connected, ACTIVE, no TestRequest outstanding, last in-sequence message at t0.
-   `live s`: connected and ACTIVE; `awaiting s`: connected and RESENDREQ_AWAITING (a ResendRequest is out). *)
+   Time is integer milliseconds, hb the heartbeat interval in seconds (an integer >= 1: smaller values are refused
+   by the constructor).  `ticks p k` are k watchdog iterations one sleep period (1000 ms) apart starting at p: the
+   phase p is arbitrary.  `trace s evs` is the run of a scenario (Tick | Recv t d m: valid message numbered
+   next_num_in + d, d = 0 in sequence, d > 0 behind a gap | application send_test_req() | application
+   send_msg(TestRequest)); `outs` its per-event outputs, `final` its last state.
+   `up s`: connected and ACTIVE or RESENDREQ_AWAITING; `idle_up s hb t0`: up, no TestRequest outstanding, clock at
+   t0 (time of the last finalized message); `idle_at`: the same with state ACTIVE; `live` / `awaiting`: connected and
+   ACTIVE / RESENDREQ_AWAITING. *)
 From Coq Require Import ZArith NArith List Bool.
 From AF Require Import Base.Sx Py.Str Fix.Timer Lemmas.TimerL.
 From AFGen Require Import GenTimer.
@@ -21,135 +23,68 @@ Open Scope Z_scope.
 (* the constants the code has today (re-derived from /repo on every run) *)
 Theorem C12_constants :
   (forall hb, thr thr_probe hb = (hb - 1) * 1000) /\ (forall hb, thr thr_dead hb = 2 * hb * 1000)
-  /\ (forall hb, thr thr_treq hb = 2 * hb * 1000) /\ tick_ms = 1000.
+  /\ (forall hb, thr thr_treq hb = 2 * hb * 1000) /\ (forall hb, thr thr_treq_silence hb = 2 * hb * 1000)
+  /\ tick_ms = 1000.
 Proof. exact constants. Qed.
 Print Assumptions C12_constants.
 
-(* Silent since t0: the k iterations up to t0 + hb - 1 s emit nothing; the first iteration after
-   t0 + hb - 1 s (at tp) writes TestRequest(112 = int(tp)) and nothing else; tp is in
+(* Silent since t0 (ACTIVE, or awaiting a resend): the k iterations up to t0 + hb - 1 s emit nothing; the first
+   iteration after t0 + hb - 1 s (at tp) writes TestRequest(112 = int(tp)) and nothing else; tp is in
    (t0 + hb - 1 s, t0 + hb s] provided the watchdog ran at all by then (tp - 1 s <= t0 + hb - 1 s). *)
 Theorem C12_probe : forall hb s t0 p (k : nat),
-  1 <= hb -> idle_at s hb t0 -> 1000 <= p ->
+  1 <= hb -> idle_up s hb t0 ->
   let tp := p + Z.of_nat k * 1000 in
   tp - 1000 - t0 <= (hb - 1) * 1000 < tp - t0 ->
   outs s (ticks p (k + 1)) = repeat [] k ++ [[testreq_frame (tp / 1000)]]
-  /\ final s (ticks p (k + 1)) = probing_st hb tp
+  /\ final s (ticks p (k + 1)) = probing_of s tp
   /\ t0 + (hb - 1) * 1000 < tp <= t0 + hb * 1000.
 Proof. exact probe_run. Qed.
 Print Assumptions C12_probe.
 
-(* Still silent: nothing further is emitted (no second probe) until the first iteration after
-   n + 2 hb s, n = int(tp) the TestReqID; that iteration (at td) disconnects.  Exact bound:
-   td in (n + 2 hb s, n + 2 hb + 1 s], hence t0 + 3 hb - 1 s < td <= t0 + 3 hb + 1 s. *)
+(* Still silent: exactly 2 hb further iterations emit nothing (no second probe) and the next one, at
+   td = tp + 2 hb + 1 s, disconnects:  t0 + 3 hb s < td <= t0 + 3 hb + 1 s. *)
 Theorem C12_dead_peer : forall hb s t0 p (k m : nat),
-  1 <= hb -> idle_at s hb t0 -> 1000 <= p ->
+  1 <= hb -> idle_up s hb t0 -> 1000 <= p ->
   let tp := p + Z.of_nat k * 1000 in
-  let n := tp / 1000 in
-  let td := tp + Z.of_nat (S m) * 1000 in
+  let td := tp + (2 * hb + 1) * 1000 in
   tp - 1000 - t0 <= (hb - 1) * 1000 < tp - t0 ->
-  td - 1000 <= (n + 2 * hb) * 1000 < td ->
+  Z.of_nat m = 2 * hb ->
   outs s (ticks p (k + 1 + (m + 1))) =
-    repeat [] k ++ [[testreq_frame n]] ++ repeat [] m ++ [[ODisconnect]]
+    repeat [] k ++ [[testreq_frame (tp / 1000)]] ++ repeat [] m ++ [[ODisconnect]]
   /\ final s (ticks p (k + 1 + (m + 1))) = dead_st hb
-  /\ t0 + (3 * hb - 1) * 1000 < td <= t0 + (3 * hb + 1) * 1000.
+  /\ t0 + 3 * hb * 1000 < td <= t0 + (3 * hb + 1) * 1000.
 Proof. exact dead_peer_run. Qed.
 Print Assumptions C12_dead_peer.
 
-(* A live peer is never dropped by the watchdog, for every scenario whose inbound traffic is in sequence (any
-   phase, any arrival pattern, application-initiated probes included), if EITHER valid traffic never pauses longer
-   than hb - 1 s before an iteration (`fed`: then no TestRequest is ever needed) OR every TestRequest written at
-   time t (id t/1000) is answered later in the run by a Heartbeat echoing the id that arrives no later than
-   id + 2 hb s (`answers`).  This is the part of the literal property that holds: its hypotheses are the negation
-   of the known-finding class of C12_unanswered_probe_refuted. *)
-Theorem C12_live_peer : forall hb evs s t0,
-  1 <= hb -> idle_at s hb t0 -> Forall (fun e => 1000 <= ev_time e) evs ->
-  (fed ((hb - 1) * 1000) t0 evs \/ (sorted evs /\ Forall inseq_ev evs /\ answers hb (trace s evs))) ->
+(* A live peer is never dropped by the watchdog - full strength, both readings of the property.
+   (A) "keeps sending valid traffic": the clock is restarted by every finalized (in-sequence) message and by every
+   TestRequest the watchdog writes; if no iteration finds the clock more than 2 hb s old, no iteration disconnects -
+   whether or not TestRequests are answered, for every scenario (any order of times, application probes included). *)
+Theorem C12_live_peer_traffic : forall hb evs s t0,
+  1 <= hb -> ok hb s -> s_id s <> Some 0 -> s_mlt s = t0 -> Forall (fun e => 1000 <= ev_time e) evs ->
+  clock_ok hb t0 (trace s evs) ->
   Forall (fun r => ~ wd_disconnect r) (trace s evs).
-Proof. exact live_peer. Qed.
-Print Assumptions C12_live_peer.
+Proof. exact live_peer_clock. Qed.
+Print Assumptions C12_live_peer_traffic.
 
-(* The same with out-of-sequence traffic (messages behind a gap, gap fills): an answer counts wherever it is
-   numbered (`is_answer` asks only 0 <= d), provided no iteration that runs while a resend is awaited finds the
-   last in-sequence message more than 2 hb s old (`gap_ok`: the negation of the class of C12_unfilled_gap_refuted). *)
-Theorem C12_live_peer_gaps : forall hb evs s,
+(* (B) "answers each TestRequest": every TestRequest the watchdog writes at time t (id t/1000) is answered later in the
+   time-ordered run by a Heartbeat echoing the id - numbered in sequence or behind a gap - that arrives no later
+   than t + 2 hb s.  Out-of-sequence traffic and gap fills are allowed; no hypothesis about the gap being closed. *)
+Theorem C12_live_peer_answers : forall hb evs s,
   1 <= hb -> ok hb s -> s_id s = None -> sorted evs -> Forall (fun e => 1000 <= ev_time e) evs ->
-  gap_ok hb s evs -> answers hb (trace s evs) ->
+  Forall (fun e => is_app_probe e = false) evs -> Forall (fun e => s_mlt s <= ev_time e) evs ->
+  answers hb (trace s evs) ->
   Forall (fun r => ~ wd_disconnect r) (trace s evs).
-Proof. exact live_peer_gaps. Qed.
-Print Assumptions C12_live_peer_gaps.
+Proof. exact live_peer_answers. Qed.
+Print Assumptions C12_live_peer_answers.
 
-(* A Heartbeat echoing the outstanding TestReqID that arrives BEHIND A SEQUENCE GAP (numbered above the expected
-   number) clears the outstanding probe: from ACTIVE it also sends the ResendRequest and enters RESENDREQ_AWAITING,
-   while a resend is already awaited it does nothing else.  The last-message clock is not refreshed. *)
-Theorem C12_answer_behind_gap_counts : forall now d v s, 0 < d -> s_id s = Some (parse_id v) ->
-  (live s -> recv now d (MHeartbeat (Some v)) s
-             = (set_id (set_state s ST_RESENDREQ_AWAITING d) None, [OWire KResendRequest None]))
-  /\ (awaiting s -> recv now d (MHeartbeat (Some v)) s = (set_id s None, [])).
-Proof. exact answer_behind_gap_counts. Qed.
-Print Assumptions C12_answer_behind_gap_counts.
-
-(* an inbound TestRequest behind a gap is still answered with the same TestReqID *)
-Theorem C12_testreq_behind_gap_answered : forall now d rid s, 0 < d ->
-  let hbt := OWire KHeartbeat (Some (match rid with Some v => v | None => [48%N] end)) in
-  (live s -> recv now d (MTestRequest rid) s
-             = (set_state s ST_RESENDREQ_AWAITING d, [OWire KResendRequest None; hbt]))
-  /\ (awaiting s -> recv now d (MTestRequest rid) s = (s, [hbt])).
-Proof. exact testreq_behind_gap_answered. Qed.
-Print Assumptions C12_testreq_behind_gap_answered.
-
-(* ... and a wrong TestReqID behind a gap still ends the session with a Logout *)
-Theorem C12_wrong_id_behind_gap_logout : forall now d v s n, 0 < d -> s_id s = Some n -> parse_id v <> n ->
-  (live s -> recv now d (MHeartbeat (Some v)) s
-             = (dead_st (s_hb s), [OWire KResendRequest None; OWire KLogout None; ODisconnect]))
-  /\ (awaiting s -> recv now d (MHeartbeat (Some v)) s = (dead_st (s_hb s), [OWire KLogout None; ODisconnect])).
-Proof. exact wrong_id_behind_gap_logout. Qed.
-Print Assumptions C12_wrong_id_behind_gap_logout.
-
-(* closing the gap: a SequenceReset in sequence whose NewSeqNo passes the number that opened the gap (nw - 1 >= gap)
-   returns the session to ACTIVE and refreshes the clock; a shorter one only shrinks the gap *)
-Theorem C12_gap_fill_closes : forall now nw s, awaiting s -> 1 <= nw ->
-  recv now 0 (MGapFill nw) s =
-  ((if s_gap s <=? nw - 1 then set_mlt (set_state s ST_ACTIVE 0) now
-    else set_mlt (set_state s ST_RESENDREQ_AWAITING (s_gap s - nw)) now), []).
-Proof. exact gap_fill_closes. Qed.
-Print Assumptions C12_gap_fill_closes.
-
-(* The silence clock while a resend is awaited.  Traffic that is all behind the unfilled gap does not refresh it,
-   the watchdog writes no TestRequest (its probe test applies to ACTIVE only) and nothing at all happens as long
-   as the clock t0 (last in-sequence message) is at most 2 hb s old ... *)
-Theorem C12_behind_gap_silence : forall hb t0 evs s,
-  awaiting s -> s_hb s = hb -> s_id s = None -> s_mlt s = t0 ->
-  Forall (behind_gap_ev hb t0) evs ->
-  final s evs = s
-  /\ Forall (fun r => writes_testreq r = false /\ ~ In ODisconnect (r_out r)
-                      /\ (is_tick (r_ev r) = true -> r_out r = [])) (trace s evs).
-Proof. exact behind_gap_quiet. Qed.
-Print Assumptions C12_behind_gap_silence.
-
-(* ... and the first iteration later than t0 + 2 hb s drops the peer, unprobed *)
-Theorem C12_gap_timeout : forall now s,
-  awaiting s -> s_id s = None -> s_mlt s <> 0 -> 2 * s_hb s * 1000 < now - s_mlt s ->
-  tick now s = (dead_st (s_hb s), [ODisconnect]).
-Proof. exact gap_timeout. Qed.
-Print Assumptions C12_gap_timeout.
-
-(* REFUTED: "a peer whose traffic is all behind an unfilled gap is probed and, if it answers, not dropped".
-   hb = 30, Heartbeats every 10 s, every one numbered above the expected number: no TestRequest is ever written
-   (`answers` holds vacuously) and the watchdog drops the peer at +60.25 s. *)
-Theorem C12_unfilled_gap_refuted :
-  exists evs,
-    sorted evs /\ forallb behind_gapb evs = true /\ gap_le 10000 1000000000 evs = true
-    /\ answers 30 (trace (active0 30 1000000000) evs)
-    /\ forallb (fun r => negb (writes_testreq r)) (trace (active0 30 1000000000) evs) = true
-    /\ exists r, In r (trace (active0 30 1000000000) evs) /\ wd_disconnect r.
-Proof. exact unfilled_gap_refuted. Qed.
-Print Assumptions C12_unfilled_gap_refuted.
-
-(* ... in particular an answer within 2 hb - 1 s of the moment the probe was written is in time *)
-Theorem C12_answer_deadline : forall hb t ta,
-  ta <= t + (2 * hb - 1) * 1000 -> ta <= (t / 1000 + 2 * hb) * 1000.
-Proof. exact answer_deadline. Qed.
-Print Assumptions C12_answer_deadline.
+(* whenever the watchdog does drop a logged-on session, a TestRequest is outstanding and the clock is more than
+   2 hb s old: a peer is never dropped unprobed, nor sooner than 2 hb s after its last valid message *)
+Theorem C12_drop_characterised : forall hb s t s' o,
+  0 <= hb -> ok hb s -> s_id s <> Some 0 -> tick t s = (s', o) -> In ODisconnect o ->
+  exists n, s_id s = Some n /\ 2 * hb * 1000 < t - s_mlt s.
+Proof. exact wd_step. Qed.
+Print Assumptions C12_drop_characterised.
 
 (* with traffic at most hb - 1 s apart the watchdog emits nothing at all, and nobody is disconnected *)
 Theorem C12_quiet_traffic : forall hb G evs s t0,
@@ -159,49 +94,20 @@ Theorem C12_quiet_traffic : forall hb G evs s t0,
 Proof. exact fed_quiet. Qed.
 Print Assumptions C12_quiet_traffic.
 
-(* REFUTED part of the literal statement (D19): a peer whose valid traffic never pauses longer than one
-   interval but that does not answer an outstanding TestRequest IS dropped.  hb = 30, application
-   messages every 29.5 s: probe at +29.25 s, watchdog disconnect at +89.25 s. *)
-Theorem C12_unanswered_probe_refuted :
-  exists hb t0 evs,
-    2 <= hb /\ sorted evs /\ only_app evs = true /\ gap_le (hb * 1000) t0 evs = true /\
-    exists r, In r (trace (active0 hb t0) evs) /\ wd_disconnect r.
-Proof. exact unanswered_probe_refuted. Qed.
-Print Assumptions C12_unanswered_probe_refuted.
-
-(* hb = 1 (probe threshold hb - 1 = 0): traffic every 0.5 s, probe at the first iteration, dropped at +2.25 s *)
-Theorem C12_unanswered_probe_hb1_refuted :
-  exists evs,
-    sorted evs /\ only_app evs = true /\ gap_le 500 1000000000 evs = true /\
-    exists r, In r (trace (active0 1 1000000000) evs) /\ wd_disconnect r.
-Proof. exact unanswered_probe_hb1_refuted. Qed.
-Print Assumptions C12_unanswered_probe_hb1_refuted.
-
-(* At most one TestRequest outstanding: in every scenario without application calls of
-   send_msg(TestRequest) (any state, any hb, any times >= 1 s), between two steps that write a
-   TestRequest there is a received Heartbeat (in sequence or behind a gap) echoing the id int(t_i) of the first one. *)
-Theorem C12_single_outstanding : forall evs s i k ri rk,
-  s_id s <> Some 0 -> no_raw evs -> Forall (fun e => 1000 <= ev_time e) evs ->
+(* At most one TestReqID outstanding, in every scenario (any state, any hb, times >= 1 s, application calls of
+   send_test_req() and send_msg(TestRequest) included): of two TestRequest frames the later one repeats the id of the
+   earlier one unless a Heartbeat (in sequence or behind a gap) echoing that id was received in between. *)
+Theorem C12_single_outstanding : forall evs s i k ri rk fi fk,
+  s_id s <> Some 0 -> Forall (fun e => 1000 <= ev_time e) evs ->
   (i < k)%nat ->
   nth_error (trace s evs) i = Some ri -> nth_error (trace s evs) k = Some rk ->
-  writes_testreq ri = true -> writes_testreq rk = true ->
-  exists j rj ta da v, (i < j < k)%nat /\ nth_error (trace s evs) j = Some rj
-                    /\ r_ev rj = Recv ta da (MHeartbeat (Some v))
-                    /\ parse_id v = ev_time (r_ev ri) / 1000.
+  In fi (r_out ri) -> is_testreq fi = true -> In fk (r_out rk) -> is_testreq fk = true ->
+  exists n, fi = testreq_frame n /\
+    (fk = fi \/
+     exists j rj ta da v, (i < j < k)%nat /\ nth_error (trace s evs) j = Some rj
+                          /\ r_ev rj = Recv ta da (MHeartbeat (Some v)) /\ parse_id v = n).
 Proof. exact single_outstanding. Qed.
 Print Assumptions C12_single_outstanding.
-
-(* REFUTED without that restriction: send_msg lets an application TestRequest through exactly when a
-   probe is outstanding (rows 5 and 6 of the witness both write a TestRequest, nothing in between) *)
-Theorem C12_raw_testrequest_refuted :
-  exists evs i k ri rk,
-    (i < k)%nat /\ nth_error (trace (active0 5 1000000000) evs) i = Some ri
-    /\ nth_error (trace (active0 5 1000000000) evs) k = Some rk
-    /\ writes_testreq ri = true /\ writes_testreq rk = true
-    /\ forall j rj, (i < j < k)%nat -> nth_error (trace (active0 5 1000000000) evs) j = Some rj ->
-                    is_tick (r_ev rj) = true.
-Proof. exact raw_testrequest_refuted. Qed.
-Print Assumptions C12_raw_testrequest_refuted.
 
 (* every inbound TestRequest is answered by one Heartbeat carrying the same TestReqID, "0" when absent *)
 Theorem C12_testreq_answered : forall now rid s, live s ->
@@ -227,16 +133,60 @@ Theorem C12_heartbeat_without_id_ignored : forall now s, live s ->
 Proof. exact heartbeat_without_id_ignored. Qed.
 Print Assumptions C12_heartbeat_without_id_ignored.
 
-(* hb = 0: the first iteration at a time that is not a whole second probes and disconnects at once *)
-Theorem C12_hb0_immediate_disconnect : forall now s t0,
-  idle_at s 0 t0 -> 1000 <= now -> -1000 < now - t0 -> now mod 1000 <> 0 ->
-  tick now s = (dead_st 0, [testreq_frame (now / 1000); ODisconnect]).
-Proof. exact hb0_immediate. Qed.
-Print Assumptions C12_hb0_immediate_disconnect.
+(* A Heartbeat echoing the outstanding TestReqID that arrives BEHIND A SEQUENCE GAP (numbered above the expected
+   number) clears the outstanding probe: from ACTIVE it also sends the ResendRequest and enters RESENDREQ_AWAITING,
+   while a resend is already awaited it does nothing else.  The clock is not restarted. *)
+Theorem C12_answer_behind_gap_counts : forall now d v s, 0 < d -> s_id s = Some (parse_id v) ->
+  (live s -> recv now d (MHeartbeat (Some v)) s
+             = (set_id (set_state s ST_RESENDREQ_AWAITING d) None, [OWire KResendRequest None]))
+  /\ (awaiting s -> recv now d (MHeartbeat (Some v)) s = (set_id s None, [])).
+Proof. exact answer_behind_gap_counts. Qed.
+Print Assumptions C12_answer_behind_gap_counts.
 
-(* outside ACTIVE (handshake states) only the last-message test applies; nothing received yet => never dropped *)
+(* an inbound TestRequest behind a gap is still answered with the same TestReqID *)
+Theorem C12_testreq_behind_gap_answered : forall now d rid s, 0 < d ->
+  let hbt := OWire KHeartbeat (Some (match rid with Some v => v | None => [48%N] end)) in
+  (live s -> recv now d (MTestRequest rid) s
+             = (set_state s ST_RESENDREQ_AWAITING d, [OWire KResendRequest None; hbt]))
+  /\ (awaiting s -> recv now d (MTestRequest rid) s = (s, [hbt])).
+Proof. exact testreq_behind_gap_answered. Qed.
+Print Assumptions C12_testreq_behind_gap_answered.
+
+(* ... and a wrong TestReqID behind a gap still ends the session with a Logout *)
+Theorem C12_wrong_id_behind_gap_logout : forall now d v s n, 0 < d -> s_id s = Some n -> parse_id v <> n ->
+  (live s -> recv now d (MHeartbeat (Some v)) s
+             = (dead_st (s_hb s), [OWire KResendRequest None; OWire KLogout None; ODisconnect]))
+  /\ (awaiting s -> recv now d (MHeartbeat (Some v)) s = (dead_st (s_hb s), [OWire KLogout None; ODisconnect])).
+Proof. exact wrong_id_behind_gap_logout. Qed.
+Print Assumptions C12_wrong_id_behind_gap_logout.
+
+(* closing the gap: a SequenceReset in sequence whose NewSeqNo passes the number that opened the gap (nw - 1 >= gap)
+   returns the session to ACTIVE and restarts the clock; a shorter one only shrinks the gap *)
+Theorem C12_gap_fill_closes : forall now nw s, awaiting s -> 1 <= nw ->
+  recv now 0 (MGapFill nw) s =
+  ((if s_gap s <=? nw - 1 then set_mlt (set_state s ST_ACTIVE 0) now
+    else set_mlt (set_state s ST_RESENDREQ_AWAITING (s_gap s - nw)) now), []).
+Proof. exact gap_fill_closes. Qed.
+Print Assumptions C12_gap_fill_closes.
+
+(* While a resend is awaited the watchdog probes exactly as in ACTIVE: traffic behind the gap leaves state and clock
+   untouched, and once the clock is more than hb - 1 s old a TestRequest is written.  (With C12_probe, C12_dead_peer
+   and C12_live_peer_answers, all stated for `up` / `ok`: a peer whose traffic is all behind an unfilled gap IS
+   probed and, if it answers the probes, not dropped; if it does not, it is dropped 2 hb + 1 s after the probe.) *)
+Theorem C12_awaiting_probed : forall now s hb t0,
+  awaiting s -> s_hb s = hb -> s_id s = None -> s_mlt s = t0 -> 0 <= hb -> (hb - 1) * 1000 < now - t0 ->
+  tick now s = (probing_of s now, [testreq_frame (now / 1000)]).
+Proof. exact awaiting_probed. Qed.
+Print Assumptions C12_awaiting_probed.
+
+Theorem C12_behind_gap_keeps_clock : forall now d m s, awaiting s -> 0 < d -> plain m = true -> s_id s = None ->
+  fst (recv now d m s) = s.
+Proof. exact behind_gap_keeps_clock. Qed.
+Print Assumptions C12_behind_gap_keeps_clock.
+
+(* outside the logged-on states (handshake) only the last-message test applies; nothing received yet => never dropped *)
 Theorem C12_handshake_silence : forall now s,
-  s_conn s = true -> s_state s <> ST_ACTIVE -> ST_DISCONNECTED_BROKEN_CONN < s_state s -> s_id s = None ->
+  s_conn s = true -> session_up s = false -> ST_DISCONNECTED_BROKEN_CONN < s_state s -> s_id s = None ->
   tick now s =
   if negb (s_mlt s =? 0) && (2 * s_hb s * 1000 <? now - s_mlt s)
   then (dead_st (s_hb s), [ODisconnect]) else (s, []).
@@ -245,15 +195,51 @@ Print Assumptions C12_handshake_silence.
 
 (* the hypothesis `1000 <= time` above is needed: with int(time.time()) = 0 the timer loop spins *)
 Theorem C12_epoch_spin : forall now s,
-  live s -> s_id s = Some 0 -> (s_hb s - 1) * 1000 < now - s_mlt s -> tick now s = (s, [OSpin]).
+  up s -> s_id s = Some 0 -> (s_hb s - 1) * 1000 < now - s_mlt s -> tick now s = (s, [OSpin]).
 Proof. exact epoch_spin. Qed.
 Print Assumptions C12_epoch_spin.
 
+(* ---- the former *_refuted witnesses, now positive: the same scenarios on the repaired model ---- *)
+
+(* D19: hb = 30, application messages every 29.5 s, the TestRequest written at +29.25 s is never answered: not dropped *)
+Example C12_unanswered_probe_spared :
+  sorted d19_evs /\ only_app d19_evs = true /\ gap_le (30 * 1000) 1000000000 d19_evs = true
+  /\ clock_ok 30 1000000000 (trace (active0 30 1000000000) d19_evs)
+  /\ (length (filter writes_testreq (trace (active0 30 1000000000) d19_evs)) = 1)%nat
+  /\ Forall (fun r => ~ wd_disconnect r) (trace (active0 30 1000000000) d19_evs).
+Proof. exact unanswered_probe_spared. Qed.
+Print Assumptions C12_unanswered_probe_spared.
+
+Example C12_unanswered_probe_hb1_spared :
+  sorted d19_hb1_evs /\ only_app d19_hb1_evs = true /\ gap_le 500 1000000000 d19_hb1_evs = true
+  /\ (length (filter writes_testreq (trace (active0 1 1000000000) d19_hb1_evs)) = 1)%nat
+  /\ Forall (fun r => ~ wd_disconnect r) (trace (active0 1 1000000000) d19_hb1_evs).
+Proof. exact unanswered_probe_hb1_spared. Qed.
+Print Assumptions C12_unanswered_probe_hb1_spared.
+
+(* send_msg(TestRequest) while the watchdog's probe is outstanding: another id is refused, the pending id passes *)
+Example C12_raw_testrequest_refused :
+  map r_out (skipn 5 (trace (active0 5 1000000000) raw_evs)) =
+  [[testreq_frame 1000005]; [ORaise]; [testreq_frame 1000005]].
+Proof. exact raw_testrequest_refused. Qed.
+Print Assumptions C12_raw_testrequest_refused.
+
+(* all traffic behind an unfilled gap: probed three times while RESENDREQ_AWAITING, every probe answered behind the
+   gap, never dropped *)
+Example C12_unfilled_gap_probed_and_spared :
+  sorted gap_all_evs /\ forallb behind_gapb gap_all_evs = true
+  /\ answers 30 (trace (active0 30 1000000000) gap_all_evs)
+  /\ (length (filter writes_testreq (trace (active0 30 1000000000) gap_all_evs)) = 3)%nat
+  /\ s_state (final (active0 30 1000000000) gap_all_evs) = ST_RESENDREQ_AWAITING
+  /\ Forall (fun r => ~ wd_disconnect r) (trace (active0 30 1000000000) gap_all_evs).
+Proof. exact unfilled_gap_probed_and_spared. Qed.
+Print Assumptions C12_unfilled_gap_probed_and_spared.
+
 (* non-vacuity: concrete reachable runs meeting the hypotheses *)
 Example C12_dead_peer_instance :
-  outs (active0 30 1000000000) (ticks 1000000250 (29 + 1 + (59 + 1))) =
-    repeat [] 29 ++ [[testreq_frame 1000029]] ++ repeat [] 59 ++ [[ODisconnect]]
-  /\ final (active0 30 1000000000) (ticks 1000000250 (29 + 1 + (59 + 1))) = dead_st 30.
+  outs (active0 30 1000000000) (ticks 1000000250 (29 + 1 + (60 + 1))) =
+    repeat [] 29 ++ [[testreq_frame 1000029]] ++ repeat [] 60 ++ [[ODisconnect]]
+  /\ final (active0 30 1000000000) (ticks 1000000250 (29 + 1 + (60 + 1))) = dead_st 30.
 Proof. exact dead_peer_instance. Qed.
 Print Assumptions C12_dead_peer_instance.
 
@@ -265,7 +251,7 @@ Proof. exact live_peer_nonvacuous. Qed.
 Print Assumptions C12_live_peer_nonvacuous.
 
 Example C12_answer_behind_gap_instance :
-  sorted gap_answer_evs /\ gap_ok 30 (active0 30 1000000000) gap_answer_evs
+  sorted gap_answer_evs
   /\ answers 30 (trace (active0 30 1000000000) gap_answer_evs)
   /\ (2 <= length (filter writes_testreq (trace (active0 30 1000000000) gap_answer_evs)))%nat
   /\ Forall (fun r => ~ wd_disconnect r) (trace (active0 30 1000000000) gap_answer_evs).
@@ -275,6 +261,6 @@ Print Assumptions C12_answer_behind_gap_instance.
 Example C12_traffic_instance :
   let evs := merge (ticks 1000000250 12) (app_msgs 1000004000 4000 3) in
   fed ((5 - 1) * 1000) 1000000000 evs
-  /\ Forall (fun r => ~ wd_disconnect r) (trace (active0 5 1000000000) evs).
+  /\ Forall (fun r => is_tick (r_ev r) = true -> r_out r = []) (trace (active0 5 1000000000) evs).
 Proof. exact traffic_instance. Qed.
 Print Assumptions C12_traffic_instance.
